@@ -59,6 +59,9 @@ var propSpecs = map[string]PropSpec{
 	"C13": {Profile: Profile{MaxCap: 6, MaxOps: 12, Queries: 14, Backends: []string{"buf"}, Rejects: 60, DetBias: 900, Foreign: 150},
 		Kinds: kinds("q", "shape"), Cases: [2]int{400, 8000}, Oracles: []string{"C13"},
 		Corr: "corr.C13.queries (GetDescriptors/GetDescriptor results for every selector tuple)"},
+	"C09": {Profile: Profile{MaxCap: 6, MaxOps: 10, BigData: true, Backends: bothBackends, Rejects: 60, DetBias: 600, FailReaders: true, Sign: 100, Foreign: 120},
+		Kinds: kinds("res", "io", "file", "shape"), Cases: [2]int{220, 4000}, Oracles: []string{"C09"},
+		Corr: "corr.C09.io_plan (the mutating calls each operation issues = the model's plan, call for call; bytes after every step)"},
 	"C14": {Profile: Profile{MaxCap: 6, MaxOps: 20, BigData: true, Backends: []string{"buf"}, Rejects: 120, DetBias: 1000, FailReaders: true},
 		Kinds: kinds("res", "hdr", "obj", "file", "rl", "shape"), Cases: [2]int{350, 6000}, Backends: true,
 		Corr: "corr.C14.backends (Lean Buffer model = sif.Buffer, Lean file model = os.File, same histories)"},
@@ -129,7 +132,7 @@ func runHistory(dir string, seed uint64, spec PropSpec, shipped string) (*Case, 
 	if forceBackend != "" {
 		g.p.Backends = []string{forceBackend}
 	}
-	e := &Env{dir: dir}
+	e := &Env{dir: dir, stats: g.stats}
 	defer e.Close()
 	c := &Case{Seed: seed}
 	var vs []*Violation
@@ -147,6 +150,11 @@ func runHistory(dir string, seed uint64, spec PropSpec, shipped string) (*Case, 
 		c.record(idx, op, obs)
 		i := idx
 		idx++
+		for _, v := range e.pending {
+			v.Op = i
+			vs = append(vs, v)
+		}
+		e.pending = nil
 		if e.f == nil || len(obs) == 0 {
 			return obs
 		}
